@@ -1615,6 +1615,54 @@ type scArrangement struct {
 // scTargeted builds arrangements aimed at the places where a single-pass loader can go wrong.
 func scTargeted(r *rand.Rand, w []scItem) []scArrangement {
 	var out []scArrangement
+	// 0. a scalar that carries the name of a directive (types and directives are named apart), the
+	//    directive used on a type defined behind it: in one document, and with the scalar and the
+	//    directive known from an earlier load when the use is read
+	for j := range w {
+		if w[j].K != kDirective || w[j].N >= 100 {
+			continue
+		}
+		req := false
+		for _, a := range w[j].Inputs {
+			if a.T.K == 2 && a.Def == nil {
+				req = true
+			}
+		}
+		if req {
+			continue
+		}
+		done := false
+		for ti := j + 1; ti < len(w) && !done; ti++ {
+			loc := map[int]int{kScalar: 8, kObject: 9, kInterface: 12, kUnion: 13, kEnum: 14, kInput: 16}[w[ti].K]
+			if loc == 0 || w[ti].Ext {
+				continue
+			}
+			for _, l := range w[j].Locs {
+				if l != loc {
+					continue
+				}
+				used := false
+				for _, u := range w[ti].Dirs {
+					if u.N == w[j].N {
+						used = true
+					}
+				}
+				c := scCopy(w)
+				if !used {
+					c[ti].Dirs = append(c[ti].Dirs, scDU{N: w[j].N})
+				}
+				sc := scItem{K: kScalar, N: 800 + w[j].N}
+				out = append(out, scArrangement{[][]scItem{append([]scItem{sc}, c...)}, "type-named-like-a-directive-one-document"})
+				out = append(out, scArrangement{[][]scItem{append([]scItem{sc}, c[:j+1]...), append([]scItem{}, c[j+1:]...)}, "type-named-like-a-directive-earlier-load"})
+				out = append(out, scArrangement{[][]scItem{append([]scItem{}, c[:j+1]...), append([]scItem{sc}, c[j+1:]...)}, "type-named-like-a-directive-with-the-use"})
+				done = true
+				break
+			}
+		}
+		if done {
+			break
+		}
+	}
 	// 1. a later load extends an interface with a field its implementers lack: refused in every
 	//    arrangement, also when the implementers came in an earlier load
 	for _, it := range w {
